@@ -44,12 +44,10 @@ def unserved_is_a_sum(ctx, rid):
         ctx.decide(o, ok, "component 0 + component 1", "the two deficit components are not added (e.g. combined with max)")
 
 
-def rules(ctx):
-    fd, edges = flownet.edge_sites(ctx)
-    flownet.need(ctx, "R1.trip-lower-bound", edges, "trip", "lower_bound", [call(REQ), call(MFC), "param:2"],
-                 "trip edges must carry min(required vehicles, applicable formation limit of that trip)")
+def required_vehicles_pairing(ctx, rid="R2"):
+    """shared with C14 (the lower bound of a trip arc)"""
     # requirement function: per-quantity pairing passengers/capacity, seated/seats
-    o, fd2 = ctx.require_fn("R2.required-vehicles-pairing", "T1", REQ,
+    o, fd2 = ctx.require_fn("%s.required-vehicles-pairing" % rid, "T1", REQ,
                             "required vehicles = max(ceil(passengers / capacity), ceil(seated / seats))")
     if fd2 is not None:
         divs = [c for c in fd2.body.calls() if c.callee and c.callee.endswith("::div_ceil")]
@@ -103,6 +101,13 @@ def rules(ctx):
         else:
             ctx.decide(o, ok, "passengers/capacity and seated/seats, combined with %s" % form, "divisions pair %s%s" % (
                 sorted(pairs), "" if combined else " and are not combined with max (%s)" % form))
+
+
+def rules(ctx):
+    fd, edges = flownet.edge_sites(ctx)
+    flownet.need(ctx, "R1.trip-lower-bound", edges, "trip", "lower_bound", [call(REQ), call(MFC), "param:2"],
+                 "trip edges must carry min(required vehicles, applicable formation limit of that trip)")
+    required_vehicles_pairing(ctx)
     limit_combination(ctx)
     objective.level_order(ctx, "R3")
     unserved_is_a_sum(ctx, "R3")
